@@ -287,6 +287,11 @@ type aliasEdge struct {
 	loop *ast.Node
 }
 
+type callRef struct {
+	onSelf bool // the receiver expression is the function's own receiver variable
+	method string
+}
+
 type argPass struct {
 	param  string // the root variable of the argument
 	method string // the callee
@@ -334,6 +339,7 @@ type ftrans struct {
 	argPasses   []argPass      // slice-typed parameter (or a segment of it) passed on to a method
 	argEdges    []argEdge      // alias edges that exist only if the callee keeps its parameter
 	swapped     map[string]bool
+	calls       []callRef // method calls of the body (for the automatic selection of callees)
 }
 
 // a method or type name: kept (a renamed method or type is an API change)
@@ -772,6 +778,10 @@ func (t *ftrans) call(c *ast.CallExpr) string {
 		if t.isPkg(f.X) {
 			fail(c.Pos(), "call of %s.%s is outside the subset", f.X.(*ast.Ident).Name, f.Sel.Name)
 		}
+		if !t.pf.fieldName[f.Sel.Name] {
+			id, isID := f.X.(*ast.Ident)
+			t.calls = append(t.calls, callRef{isID && id.Name == t.recvVar, f.Sel.Name})
+		}
 		if t.pf.fieldName[f.Sel.Name] {
 			// v.ranker_(a, b): the field holds a function value (a method value in the semantics)
 			return "(ECallVal " + t.expr(f) + " " + t.exprs(c.Args) + ")"
@@ -1080,6 +1090,7 @@ type fnOut struct {
 	Source  string   `json:"source"`
 	Locals  []string `json:"locals"` // real names of the variables 1, 2, ..
 	term    string
+	auto    bool
 	trans   *ftrans
 	aliasOK []string
 }
@@ -1404,6 +1415,73 @@ func main() {
 		fo.Props = s.Props
 		fns = append(fns, fo)
 	}
+	// Callees are selected automatically: a method that a translated function calls on its own receiver, and every
+	// method of that name of a translated receiver type when the receiver of the call is something else (the dynamic
+	// type is not known syntactically), transitively.  A callee outside the subset is an error for the properties of
+	// its callers.
+	have := map[string]bool{}
+	recvTypes := map[string]string{} // translated receiver type -> package directory
+	for _, s := range selection {
+		have[s.Recv+"."+s.Method] = true
+		recvTypes[s.Recv] = filepath.Dir(s.File)
+	}
+	for i := 0; i < len(fns); i++ {
+		f := fns[i]
+		for _, c := range f.trans.calls {
+			var cands []string
+			if c.onSelf {
+				cands = []string{f.Type}
+			} else {
+				for ty := range recvTypes {
+					cands = append(cands, ty)
+				}
+				sort.Strings(cands)
+			}
+			for _, ty := range cands {
+				key := ty + "." + c.method
+				pf := pkgs[recvTypes[ty]]
+				fd := pf.funcs[key]
+				if fd == nil {
+					continue
+				}
+				if have[key] {
+					// a callee reached from a further property: its theorems rest on it as well
+					for _, g := range fns {
+						if g.Type == ty && g.Method == c.method {
+							for _, pr := range f.Props {
+								if !contains(g.Props, pr) && g.auto {
+									g.Props = append(g.Props, pr)
+								}
+							}
+						}
+					}
+					continue
+				}
+				have[key] = true
+				rel := pf.fileOf[fd]
+				fo, te := translate(pf, fset, fd, pf.files[rel], ids)
+				if te != nil {
+					p := fset.Position(te.pos)
+					errs = append(errs, errOut{ty, c.method, fmt.Sprintf("v4/%s:%d", rel, p.Line),
+						"(callee of " + f.Type + "." + f.Method + ", selected automatically) " + te.msg, f.Props})
+					continue
+				}
+				fo.File = "v4/" + rel
+				fo.Props = append([]string(nil), f.Props...)
+				fo.auto = true
+				fns = append(fns, fo)
+			}
+		}
+	}
+	sort.SliceStable(fns, func(a, b int) bool { // the automatically selected ones after the table, in a stable order
+		if fns[a].auto != fns[b].auto {
+			return !fns[a].auto
+		}
+		if !fns[a].auto {
+			return false
+		}
+		return fns[a].Type+"."+fns[a].Method < fns[b].Type+"."+fns[b].Method
+	})
 	ro := readOnlyNames(fns)
 	wbs := writtenParams(fns)
 	keptP := keptParams(fns)
